@@ -110,6 +110,19 @@ def root_cause(m_aw, m_b, m_ar, m_r, s_w, decode):
     return None
 
 
+def data_before_address(mags, errs):
+    """Second classifier of the same mechanism: the first error is on the W path (or a hang) and some master really
+    made W[k] visible before AW[k] in this history (the decoder then steers W by the idle aw.addr lines)."""
+    k0 = errs[0]["kind"]
+    if not (k0.startswith("w-") or k0 in ("request-never-answered", "handshake-count-differs-between-master-and-slave-side")):
+        return None
+    for m in mags:
+        if any(k < len(m.offered["aw"]) and m.offered["w"][k] < m.offered["aw"][k] for k in range(len(m.offered["w"]))) \
+                or len(m.offered["w"]) > len(m.offered["aw"]):
+            return "w-accepted-before-its-aw(routed-by-idle-aw-address)"
+    return None
+
+
 def class_params(rng, cls):
     if cls == "A":
         return dict(order=rng.choice(["together", "aw_first"]), max_out=1, p_aw=rng.choice([1.0, 0.5, 0.2]),
@@ -252,7 +265,7 @@ def run_case(case):
         errs += lm.viol[:1]
     root = None
     if errs:
-        root = root_cause([[(c, t[0]) for c, t in m.log["aw"]] for m in mags], [[c for c, _ in m.log["b"]] for m in mags],
+        root = data_before_address(mags, errs) or root_cause([[(c, t[0]) for c, t in m.log["aw"]] for m in mags], [[c for c, _ in m.log["b"]] for m in mags],
                           [[(c, t[0]) for c, t in m.log["ar"]] for m in mags], [[e[0] for e in m.log["r"]] for m in mags],
                           [(cw, data >> 28, (data >> 16) & 63) for s in sags for (cw, data, strb) in s.log["w"]],
                           lambda a: tuple(which(regs, a)))
